@@ -2,8 +2,11 @@
 package c12
 
 import (
+	"context"
 	"fmt"
 	"strings"
+	"sync"
+	"time"
 
 	"verif/internal/pipe"
 	"verif/internal/rig"
@@ -20,6 +23,9 @@ func gen(seed int64, tier string, idx int) *pipe.Scenario {
 	instant := []string{"startup", "mid", "dst-blocked", "dlq-blocked", "during-graceful", "idle"}[idx%6]
 	if idx%14 == 9 {
 		instant = "during-backoff"
+	}
+	if idx%14 == 2 {
+		instant = "at-recovery-decision"
 	}
 	sc.Name = instant
 	var steps []pipe.Step
@@ -90,6 +96,19 @@ func gen(seed int64, tier string, idx int) *pipe.Scenario {
 		sc.RecMaxRetries = 3
 		steps = append(steps, pipe.Step{AtEvent: 0, Op: "await-recovering"},
 			pipe.Step{AtEvent: 0, Op: "forcestop", AfterPrevUs: g.R.Intn(30000)})
+	case "at-recovery-decision":
+		// the run fails transiently; the force stop is issued by a harness action
+		// (see hooks) at the scheduling point between the recovery's look at the
+		// force-stop mark and the restart it then begins - the one instant at which
+		// the force stop is accepted against the dead run while the restart has
+		// already decided to go ahead
+		d := &sc.Topo.Dests[0]
+		d.Dst.Shape = map[int]string{2 + g.R.Intn(8): "streamerr"}
+		d.Dst.ShapeSess = 1
+		sc.RecMinDelayUs = 2000 + g.R.Intn(20000)
+		sc.RecMaxDelayUs = 2 * sc.RecMinDelayUs
+		sc.RecMaxRetries = 3
+		steps = append(steps, pipe.Step{AtEvent: 0, Op: "await-forcestop-from-action"})
 	}
 	if instant != "dst-blocked" && instant != "dlq-blocked" && sc.Name != "during-graceful-shutdown" {
 		steps = append(steps, pipe.Step{AtEvent: 0, Op: "wait"})
@@ -104,8 +123,47 @@ func gen(seed int64, tier string, idx int) *pipe.Scenario {
 }
 
 func hooks(sc *pipe.Scenario) *pipe.Hooks {
+	h := opHooks()
+	if strings.Contains(sc.Name, "at-recovery-decision") {
+		h.AfterBuild = func(r *rig.Rig, sc *pipe.Scenario) {
+			if r.Points == nil {
+				return
+			}
+			var once sync.Once
+			r.Points.On("lifecycle.recover.checked", func() {
+				once.Do(func() {
+					// the harness as a concurrent client: a force stop, issued now. Stop
+					// does not wait for the restart (it takes no lock the recovery holds);
+					// pacing: the recovery is held here until the call has returned
+					r.Log.Append(rig.Ev{Kind: rig.KNote, Note: "force stop issued at the recovery decision"})
+					done := make(chan struct{})
+					go func() { _ = r.Stop(context.Background(), sc.Topo.Pipeline, true); close(done) }()
+					select {
+					case <-done:
+					case <-time.After(2 * time.Second):
+					}
+				})
+			})
+		}
+	}
+	return h
+}
+
+func opHooks() *pipe.Hooks {
 	return &pipe.Hooks{Op: func(r *rig.Rig, sc *pipe.Scenario, op string) bool {
 		switch op {
+		case "await-forcestop-from-action":
+			// the run ends without recovery ever reaching its decision (a fatal cause
+			// won, retries exhausted): bounded wait, the judge then finds no force stop
+			r.Log.WaitFor(func(evs []rig.Ev) bool {
+				for i := len(evs) - 1; i >= 0; i-- {
+					if evs[i].Kind == rig.KCtlRet && evs[i].Op == "ForceStop" {
+						return true
+					}
+				}
+				return false
+			}, 10e9)
+			return true
 		case "blockdlq":
 			// DLQ connectors are created at start; block them all (also future ones via default)
 			r.Log.WaitFor(func(evs []rig.Ev) bool {
@@ -223,6 +281,9 @@ func judge(out *pipe.Outcome, ix *pipe.Index) pipe.Verdict {
 		return v
 	}
 	v.Stats["force_stops_judged"]++
+	if instant == "at-recovery-decision" {
+		v.Stats["force_stops_issued_between_the_recovery_check_and_the_restart"]++
+	}
 	// (1) the run terminates: the WaitPipeline issued after the force stop returned
 	waited := false
 	for i := fs; i < len(evs); i++ {
@@ -397,7 +458,7 @@ func judge(out *pipe.Outcome, ix *pipe.Index) pipe.Verdict {
 func init() {
 	vp.Register(&pipe.PropDef{
 		PID: "C12", PLevel: "exploration",
-		RuleText: "scenario = both engines, up to 2x3 with processors (filters, splits, parallel workers), rejections and DLQ; a force stop is issued at one of six classes of instant: node start-up (0-13 events after Start), mid-flow at a PRNG-chosen event index, while a destination withholds its acks, while the DLQ withholds its acks, 0-3 ms after a graceful stop began (slow destination), idle. Then WaitPipeline, then a user Start. Judged: the run terminates (WaitPipeline returns; a case exceeding its watchdog twice = wedge; a reproduced process death = violation), the stored status becomes Degraded with a cause (force stop, unless another fatal cause won the race) and never Recovering/Running again before the user start, every source ack in the whole history is justified (C01 predicate), Start succeeds, every source is reopened at the position stored at that moment and no record at or before it lacks a terminal outcome. Non-trivial: a termination was observed; distinct = distinct (engine, topology, instant class, in-flight class, resulting status).",
+		RuleText: "scenario = both engines, up to 2x3 with processors (filters, splits, parallel workers), rejections and DLQ; a force stop is issued at one of six classes of instant: node start-up (0-13 events after Start), mid-flow at a PRNG-chosen event index, while a destination withholds its acks, while the DLQ withholds its acks, 0-3 ms after a graceful stop began (slow destination), idle; plus two recovery instants after a transient failure: during the back-off, and (harness action at the scheduling point lifecycle.recover.checked) between the recovery's look at the force-stop mark and the restart it begins. Then WaitPipeline, then a user Start. Judged: the run terminates (WaitPipeline returns; a case exceeding its watchdog twice = wedge; a reproduced process death = violation), the stored status becomes Degraded with a cause (force stop, unless another fatal cause won the race) and never Recovering/Running again before the user start, every source ack in the whole history is justified (C01 predicate), Start succeeds, every source is reopened at the position stored at that moment and no record at or before it lacks a terminal outcome. Non-trivial: a termination was observed; distinct = distinct (engine, topology, instant class, in-flight class, resulting status).",
 		Assume:   []string{"blocked fake plugins release on context cancellation exactly like the built-in sandbox detaches, so an 'unresponsive plugin' does not manufacture a hang the transport could not have"},
 		Quick:    300, Thorough: 3000, HangIsViol: true, DeathIsViol: true,
 		PointBias: []string{"lifecycle.start.checked", "lifecycle.start.before-run", "lifecycle.stop.checked", "lifecycle.recover.backoff-elapsed", "lifecycle.run.ended", "pipeline.updatestatus.before-store", "funnel.worker.ack", "funnel.worker.nack"},
